@@ -41,6 +41,8 @@ type c04Event struct {
 	Call   int64  `json:"call"`
 	Ret    int64  `json:"ret"`
 	Err    string `json:"err,omitempty"`
+	// InGC: a GC pass was active at some moment between call and return (C05 stress unit)
+	InGC bool `json:"ingc,omitempty"`
 }
 
 type c04Case struct {
@@ -53,9 +55,14 @@ type c04Case struct {
 	// CloseRace: the graceful shutdown runs while the flusher / hint dumper loops are still active (as in production,
 	// where those goroutines are never stopped); the directory image taken when Close returns is what is restarted
 	CloseRace bool `json:"closerace,omitempty"`
+	// GC (C05 stress unit): 1 = a background actor keeps requesting GC passes over everything below the head (through
+	// HStore.GC, as beansdbadmin does), 2 = the same with the hint merge step
+	GC int `json:"gc,omitempty"`
 	// filled when a violation is found: the recorded history (the replay re-validates it without running anything)
 	History []c04Event `json:"history,omitempty"`
 	Final   []string   `json:"final,omitempty"`
+
+	gcPasses int64 // passes accepted during the last execution (label)
 }
 
 func c04Value(client, seq, size int) []byte {
@@ -91,12 +98,21 @@ func c04Execute(c *c04Case) (hist []c04Event, final []string, finalVers []int32,
 	driverGoid = -2 // FATAL on any goroutine exits the process (the current case is on disk)
 	var evCounter int64
 	sched := c.Schedule
+	var gcEpoch int64 // odd while a GC pass is active
 	yield := func(name string, args ...interface{}) {
+		if name == "gc.pass.enter" || name == "gc.pass.exit" {
+			atomic.AddInt64(&gcEpoch, 1)
+			return
+		}
 		if len(sched) == 0 {
 			return
 		}
 		switch name {
 		case "bkt.set.appended", "dc.flush.written", "dc.flush.detached", "dc.flush.append.before", "dc.flush.appended", "ds.flush.enter", "ds.rotate", "ds.flush.write.before":
+		case "gc.rec.checked", "gc.rec.copied", "gc.repoint.got", "gc.rec.repointed", "gc.src.begin", "gc.src.cleared":
+			if c.GC == 0 {
+				return
+			}
 		default:
 			return
 		}
@@ -161,6 +177,33 @@ func c04Execute(c *c04Case) (hist []c04Event, final []string, finalVers []int32,
 			}
 		}()
 	}
+	var gcPasses int64
+	if c.GC > 0 {
+		bg.Add(1)
+		go func() {
+			defer bg.Done()
+			for {
+				for bid, b := range s.buckets {
+					if b.State != BUCKET_STAT_READY {
+						continue
+					}
+					if _, _, err := s.GC(bid, 0, -1, 0, c.GC == 2, false); err == nil {
+						atomic.AddInt64(&gcPasses, 1)
+					}
+					for s.IsGCRunning() {
+						time.Sleep(20 * time.Microsecond)
+					}
+				}
+				select {
+				case <-stop:
+					return
+				default:
+				}
+				time.Sleep(50 * time.Microsecond)
+			}
+		}()
+	}
+	defer func() { c.gcPasses = atomic.LoadInt64(&gcPasses) }()
 	for ci, script := range c.Clients {
 		wg.Add(1)
 		go func(ci int, script []c04Op) {
@@ -196,9 +239,12 @@ func c04Execute(c *c04Case) (hist []c04Event, final []string, finalVers []int32,
 						ev.Err = err.Error()
 					}
 				case "get":
+					e0 := atomic.LoadInt64(&gcEpoch)
 					ev.Call = int64(time.Since(start))
 					p, _, err := s.Get(newKI(key), false)
 					ev.Ret = int64(time.Since(start))
+					e1 := atomic.LoadInt64(&gcEpoch)
+					ev.InGC = e0%2 == 1 || e1 != e0
 					if err != nil {
 						ev.Err = err.Error()
 					} else if p != nil && p.Ver > 0 {
